@@ -36,7 +36,7 @@ type User implements Account { id: ID! name: String address: Address fullName: S
 type Admin implements Account { id: ID! name: String address: Address fullName: String title: String level: Int }
 type Address { street: String country: Country }
 type Country { code: ID! name: String }
-type Product { upc: ID! name: String price: Int weight: Int inStock: Boolean shippingEstimate: String reviews: [Review] }
+type Product { upc: ID! name: String price: Int weight: Int inStock: Boolean shippingEstimate: String deliveryNote: String reviews: [Review] }
 type Review { id: ID! body: String author: User product: Product rating: Int }
 union SearchResult = Product | User | Review
 `
@@ -65,6 +65,9 @@ union SearchResult = Product | User | Review
 `},
 	{Name: "inventory", SDL: `
 type Product @key(fields: "upc") { upc: ID! price: Int @external weight: Int @external inStock: Boolean shippingEstimate: String @requires(fields: "price weight") }
+`},
+	{Name: "shipping", SDL: `
+type Product @key(fields: "upc") { upc: ID! shippingEstimate: String @external deliveryNote: String @requires(fields: "shippingEstimate") }
 `},
 	{Name: "reviews", SDL: `
 type Review @key(fields: "id") { id: ID! body: String author: User @provides(fields: "username") product: Product rating: Int }
@@ -114,7 +117,7 @@ func fedL1Universe(r *rand.Rand) *fedUniverse {
 	}
 	for i := 0; i < 1+r.Intn(3); i++ {
 		f := map[string]any{"upc": fvS(fmt.Sprintf("p%d", i)), "name": fvS(fmt.Sprintf("Product %d", i)), "price": fvS(json.Number(fmt.Sprint(10 * (i + 1)))),
-			"weight": fvS(json.Number(fmt.Sprint(100 + i))), "inStock": fvS(r.Intn(2) == 0), "shippingEstimate": fvC("price", "weight"), "tag": fvS(pick(r, []string{"a", "b"})), "reviews": fvL()}
+			"weight": fvS(json.Number(fmt.Sprint(100 + i))), "inStock": fvS(r.Intn(2) == 0), "shippingEstimate": fvC("price", "weight"), "deliveryNote": fvC("shippingEstimate"), "tag": fvS(pick(r, []string{"a", "b"})), "reviews": fvL()}
 		if r.Intn(7) == 0 {
 			f["weight"] = fvN()
 		}
